@@ -15,7 +15,9 @@ def run(tier):
     exe_int = arrays.build(wd, 0)
     exe_str = arrays.build(wd, 1)
     ops = arrays.C04_OPS
-    plan = [("c04_d1_int", consts(1, 3, 3, True, ops), exe_int),
+    d0ops = ["ctor_default", "ctor_ext", "ctor_fill", "ctor_copy", "ctor_move", "assign_copy", "assign_move", "self_assign", "swap", "write", "destroy"]
+    plan = [("c04_d0_int", consts(0, 0, 4, True, d0ops), exe_int), ("c04_d0_str", consts(0, 0, 3, False, d0ops), exe_str),
+            ("c04_d1_int", consts(1, 3, 3, True, ops), exe_int),
             ("c04_d2_int", consts(2, 2, 3, True, ops), exe_int),
             ("c04_d2_str", consts(2, 2, 2, False, ops), exe_str),
             ("c04_d3_int", consts(3, 2, 2, True, ops), exe_int)]
